@@ -192,7 +192,10 @@ def scan_function(qual, fn, fd):
                 for sub in ([t] if not isinstance(t, (ast.Tuple, ast.List)) else t.elts):
                     if isinstance(sub, (ast.Subscript, ast.Attribute)):
                         add(n, "store:" + type(sub).__name__.lower(), sub.value)
-                    elif isinstance(n, ast.AugAssign) and isinstance(sub, ast.Name) and (sub.id in params) and sub.id not in immut:
+                    elif isinstance(n, ast.AugAssign) and isinstance(sub, ast.Name) and \
+                            ((sub.id in params and sub.id not in immut) or
+                             (sub.id in nested_params and not is_fresh_expr(n.value, fresh) is None and
+                              isinstance(n.op, (ast.Add, ast.BitOr)) and not isinstance(n.value, ast.Constant))):
                         # `param += x` mutates in place when param is a list/set/dict
                         if isinstance(n.op, (ast.Add, ast.BitOr, ast.BitAnd, ast.Sub, ast.BitXor, ast.Mult)):
                             rows.append((qual, n.lineno, "augassign:name", sub.id, 5))
